@@ -5,13 +5,17 @@
 package main
 
 import (
+	"context"
 	"encoding/json"
 	"fmt"
 	"os"
 	"sort"
 	"strings"
+	"sync"
+	"time"
 
 	"github.com/atlassian/gostatsd"
+	"github.com/atlassian/gostatsd/pkg/statsd"
 
 	"verifharness/internal/hx"
 )
@@ -282,7 +286,71 @@ func runOne(line string) (out string) {
 	for i, p := range pieces {
 		outp[i] = renderPiece(p)
 	}
-	return strings.Join(outp, " | ")
+	return strings.Join(outp, " | ") + " || " + dispatch(n, parts[1:])
+}
+
+// recorder is an Aggregator that remembers what its worker was handed.
+type recorder struct {
+	mu   sync.Mutex
+	seen []string
+}
+
+func (r *recorder) ReceiveMap(mm *gostatsd.MetricMap) {
+	r.mu.Lock()
+	defer r.mu.Unlock()
+	mm.Counters.Each(func(n, t string, c gostatsd.Counter) { r.seen = append(r.seen, "c "+hx.S(n)+" "+hx.S(t)+" "+encCounter(c)) })
+	mm.Timers.Each(func(n, t string, c gostatsd.Timer) { r.seen = append(r.seen, "t "+hx.S(n)+" "+hx.S(t)+" "+encTimer(c)) })
+	mm.Gauges.Each(func(n, t string, c gostatsd.Gauge) { r.seen = append(r.seen, "g "+hx.S(n)+" "+hx.S(t)+" "+encGauge(c)) })
+	mm.Sets.Each(func(n, t string, c gostatsd.Set) { r.seen = append(r.seen, "s "+hx.S(n)+" "+hx.S(t)+" "+encSet(c)) })
+}
+func (r *recorder) Flush(time.Duration)        {}
+func (r *recorder) Process(statsd.ProcessFunc) {}
+func (r *recorder) Reset()                     {}
+
+// dispatch sends the batch, and then every series of it alone, through a real BackendHandler with n
+// workers and reports what each worker was handed (worker i owns the i-th created aggregator).
+// Only for n <= 16 and at most 30 series (both sides print "D -" otherwise).
+func dispatch(n int, entries [][]string) string {
+	nonEmpty := 0
+	for _, e := range entries {
+		if len(e) == 5 {
+			nonEmpty++
+		}
+	}
+	if n > 16 || nonEmpty > 30 {
+		return "D -"
+	}
+	recs := []*recorder{}
+	factory := statsd.AggregatorFactoryFunc(func() statsd.Aggregator {
+		r := &recorder{}
+		recs = append(recs, r)
+		return r
+	})
+	bh := statsd.NewBackendHandler(nil, 1, n, 0, factory)
+	ctx, cancel := context.WithCancel(context.Background())
+	defer cancel()
+	go bh.Run(ctx)
+	mm, _ := build(entries)
+	bh.DispatchMetricMap(ctx, mm)
+	for _, e := range entries {
+		if len(e) == 5 {
+			one, _ := build([][]string{e})
+			bh.DispatchMetricMap(ctx, one)
+		}
+	}
+	bh.Process(ctx, func(int, statsd.Aggregator) {})() // every worker has finished its ReceiveMap calls
+	out := make([]string, n)
+	for i, r := range recs {
+		r.mu.Lock()
+		sort.Strings(r.seen)
+		if len(r.seen) == 0 {
+			out[i] = "-"
+		} else {
+			out[i] = strings.Join(r.seen, " ; ")
+		}
+		r.mu.Unlock()
+	}
+	return "D " + strings.Join(out, " | ")
 }
 
 func main() {
